@@ -1,4 +1,4 @@
-import FalconModel.HandlersRule
+import FalconModel.RequestMedia
 /-! mhdriver — line protocol over the C11 models.
 
   Strings are hex (ASCII bytes), `-` = empty.  Handler objects are numbered in creation order (`new`, `copy`).
@@ -12,7 +12,15 @@ import FalconModel.HandlersRule
     resolve <i> <media_type> <default> <0|1>-> h <id> | 415 | none | unsupported
     quality <media_type> <header>           -> q <ten-thousandths> | err type | err range | unsupported
     best <c1,c2,..|none> <header>             -> m <hex> | err type | err range | unsupported
-  <kvs>/<mapping> = hexkey:id,hexkey:id,... | -                                                               -/
+  <kvs>/<mapping> = hexkey:id,hexkey:id,... | -
+
+  One request object per `rnew` (model Rq: the per-request cache of get_media in front of the resolver):
+    beh <id> <ok|notfound|fails>            -> ok                    what handler <id>'s deserialize does
+    rnew <i> <content_type> <default>       -> ok                    a request whose options hold Handlers object <i>
+    rset ct <s> | rset default <s> | rset handlers <i>
+                                            -> ok                    req.content_type = / options.default_media_type = / options.media_handlers =
+    rget <0|1>                              -> v <id> | 415 | raised <id> | dflt | unsupported      req.get_media([default_when_empty])
+  (mutations of the mapping go through the object lines above; `rget` runs Rq.getMedia on the request's current object)       -/
 open Mh
 
 def hv (c : Char) : Nat := if c.isDigit then c.toNat - 48 else c.toNat - 87
@@ -42,6 +50,43 @@ def showErr : Mt.Err → String
   | .unsupported => "unsupported"
 
 abbrev Objs := Array St
+
+/-- the request of the current case: cache + content type, default type, index of its Handlers object, handler behaviours -/
+structure RState where
+  req : Rq.Req := { ct := "", media := none, err := none }
+  dflt : String := ""
+  hi : Nat := 0
+  beh : List (Nat × Rq.Beh) := []
+
+def RState.behOf (r : RState) (h : Nat) : Rq.Beh := ((r.beh.find? (·.1 == h)).map (·.2)).getD .ok
+
+def showOut : Rq.Out → String
+  | .value h => "v " ++ toString h
+  | .e415 => "415"
+  | .raised h => "raised " ++ toString h
+  | .dflt => "dflt"
+
+def rstep (os : Objs) (r : RState) (ws : List String) : Objs × RState × String :=
+  match ws with
+  | ["beh", h, b] =>
+    let b' : Rq.Beh := if b == "notfound" then .notFound else if b == "fails" then .fails else .ok
+    (os, { r with beh := (h.toNat!, b') :: r.beh }, "ok")
+  | ["rnew", i, ct, dflt] => (os, { r with req := { ct := unhex ct, media := none, err := none }, dflt := unhex dflt, hi := i.toNat! }, "ok")
+  | ["rset", "ct", s] => (os, { r with req := { r.req with ct := unhex s } }, "ok")
+  | ["rset", "default", s] => (os, { r with dflt := unhex s }, "ok")
+  | ["rset", "handlers", i] => (os, { r with hi := i.toNat! }, "ok")
+  | ["rget", dwe] =>
+    match os[r.hi]? with
+    | none => (os, r, "bad-object")
+    | some s =>
+      let w : Rq.World := { h := s, dflt := r.dflt, req := r.req }
+      let key := mkKey r.req.ct r.dflt true
+      if r.req.media.isNone && r.req.err.isNone && (s.cache.find? (·.1 == key)).isNone && ruleUnsupported s.data key then
+        (os, r, "unsupported")
+      else
+        let (w', out) := Rq.getMedia r.behOf w (dwe == "1")
+        (os.set! r.hi w'.h, { r with req := w'.req }, showOut out)
+  | _ => (os, r, "bad-op")
 
 def withObj (os : Objs) (i : String) (k : St → Objs × String) : Objs × String :=
   match os[i.toNat!]? with
@@ -98,10 +143,18 @@ def step (os : Objs) (line : String) : Objs × String :=
     | .error e => (os, showErr e)
   | _ => (os, "bad-op")
 
-partial def loop (h : IO.FS.Stream) (os : Objs) : IO Unit := do
+def isReqOp (w : String) : Bool := w == "beh" || w == "rnew" || w == "rset" || w == "rget"
+
+partial def loop (h : IO.FS.Stream) (os : Objs) (r : RState) : IO Unit := do
   let line ← h.getLine
   if line.isEmpty then return ()
-  let (os', out) := step os line
-  IO.println out
-  loop h os'
-def main : IO Unit := do loop (← IO.getStdin) #[]
+  let ws := line.trimAscii.toString.splitOn " "
+  if isReqOp (ws.headD "") then
+    let (os', r', out) := rstep os r ws
+    IO.println out
+    loop h os' r'
+  else
+    let (os', out) := step os line
+    IO.println out
+    loop h os' (if ws == ["reset"] then {} else r)
+def main : IO Unit := do loop (← IO.getStdin) #[] {}
